@@ -100,6 +100,7 @@ def step(ctx, op, p):
     ctx.k += 1
     k = ctx.k
     S, T = ctx.slots, ctx.tables
+    n_before = len(S)
     s = S[p % len(S)] if S else None
     t = T[p % len(T)] if T else None
     if op == 'new': S.append(Vector([k, k + 1, k + 2], name='n%d' % k))
@@ -163,7 +164,7 @@ def step(ctx, op, p):
             return checked_write(ctx, 'table cell', col, lambda: t.__setitem__((0, 0), 600 + k))
     else:
         raise ValueError(op)
-    if op in ('new', 'copy', 'slice', 'full-slice', 'op-result') and S:
+    if op in ('new', 'copy', 'slice', 'full-slice', 'op-result') and len(S) > n_before:
         # fresh vectors, copies, slices and operation results share storage with no other live vector
         shared = ctx.partners(S[-1])
         if shared: return 'the vector produced by %s shares its storage with %s' % (op, shared)
